@@ -333,6 +333,10 @@ class Monitor:
     def on_eval(self, sim):
         pass
 
+    def on_return(self, sim, ret):
+        """a driver call returned (stop by its limits)"""
+        pass
+
     def pre_refine(self, sim):
         pass
 
@@ -355,10 +359,19 @@ class StructureMonitor(Monitor):
         s.update(kw)
         return s
 
+    def on_return(self, sim, ret):
+        self.check_structure(sim, "at_return")
+        lm = [int(x) for x in ret[2]]
+        deepest = [max(max(int(l) for l in o.levels) for o in objs) for objs in sim.containers()]
+        if any(a < b for a, b in zip(lm, deepest)):
+            sim.ctx.violate("lmax_covers_levels", self.sig(sim, when="at_return"), "the driver returned lmax %s, deepest levels present %s" % (lm, deepest))
+
     def on_eval(self, sim):
         if not self.checked_initial:
             self.checked_initial = True
             self.check_structure(sim, "initial")
+        else:
+            self.check_structure(sim, "at_evaluation")
         for objs in sim.containers():
             for o in objs:
                 if o.benefit is None or o.benefit < 0 or (isinstance(o.error, float) and o.error < 0):
